@@ -33,6 +33,7 @@ def compile_script(script_path: str) -> CompilerOutput:
         CompilerOutput: The Compiler Output
     """
     script_dir = os.path.dirname(script_path)
+    path_before = list(sys.path)
     sys.path.insert(0, script_dir)
     loaded_before = set(sys.modules)
     try:
@@ -40,19 +41,25 @@ def compile_script(script_path: str) -> CompilerOutput:
     finally:
         # The helper modules and packages of this program must not outlive its
         # compilation: a later program importing a module of the same name from its
-        # own directory would silently get this program's.
-        own_dir = os.path.abspath(script_dir)
+        # own directory would silently get this program's.  The same holds for what
+        # it imported from directories that it added to sys.path itself.
+        if script_dir in sys.path:
+            sys.path.remove(script_dir)
+        added = [entry for entry in sys.path if entry not in path_before]
+        own_dirs = {os.path.abspath(entry) for entry in added}
+        own_dirs.add(os.path.abspath(script_dir))
         loaded = set(sys.modules) - loaded_before
         own = {
             name
             for name in loaded
-            if "." not in name and _found_in(sys.modules[name], own_dir)
+            if "." not in name
+            and any(_found_in(sys.modules[name], own_dir) for own_dir in own_dirs)
         }
         for name in loaded:
             if name.split(".")[0] in own:
                 del sys.modules[name]
-        if script_dir in sys.path:
-            sys.path.remove(script_dir)
+        for entry in added:
+            sys.path.remove(entry)
 
 
 def _found_in(module, directory: str) -> bool:
